@@ -10,6 +10,10 @@ for _l in open(os.path.join(VERIF, 'properties.jsonl')):
         _p = json.loads(_l); PROPS[_p['id']] = _p
 
 FALLBACK_UNWIND = 4
+# properties whose statement is only partly carried by contracts (parser grammar, JSON/regex engines, list abstractions) and whose native
+# driver is deterministic and takes seconds: its bounded search on the real code also runs in the quick tier (labelled bounded in the
+# evidence under native_search, never counted as discharged; a failing input it finds is a VIOLATION)
+QUICK_NATIVE = {'C01', 'C12', 'C13', 'C15', 'C16', 'C17', 'C18'}
 GLOBAL_ASSUMPTIONS = [
     'clang-14 AST of the translation units (Linux, Qt 5.15.8, QTLOGGER_STATIC, QTLOGGER_SYSLOG, threads on) is a faithful reading of what g++-12 compiles; other #if branches are not covered',
     'the lowering rules of DESIGN 2.2 implement C++ semantics (range-for order, RAII scope exit, member-initialiser order, value semantics of implicitly shared Qt types, const references to Qt value types as copies)',
@@ -231,12 +235,12 @@ def run_check(prop, tier, only=None, jobs=14, show=None):
     # replay search still runs on the real code; a failing input it finds IS a violation (a real input on the real code), its silence
     # decides nothing
     native_search = None
-    if (undecided or tier == 'thorough') and rc == 0 and os.path.exists(os.path.join(VERIF, 'replay', prop + '.py')):
+    if (undecided or tier == 'thorough' or prop in QUICK_NATIVE) and rc == 0 and os.path.exists(os.path.join(VERIF, 'replay', prop + '.py')):
         d = os.path.join(engine.BUILD, 'replay', prop); os.makedirs(d, exist_ok=True)
-        path = os.path.join(d, 'undecided.search.json' if undecided else 'thorough.search.json')
+        path = os.path.join(d, 'undecided.search.json' if undecided else 'native.search.json')
         rec = {'property': prop, 'statement': PROPS.get(prop, {}).get('statement'), 'undecided': [{'unit': n, 'reason': w[:400]} for n, w in undecided],
                'note': ('the contract proof could not be completed on this tree (see undecided); this failing input was found by the native replay search on the real code' if undecided else
-                        'thorough tier: every contract obligation was discharged; this failing input was found by the bounded native replay search on the real code, which the contracts/models did not anticipate')}
+                        'every contract obligation was discharged; this failing input was found by the bounded native replay search on the real code (part of the property is not carried by the contracts, see level_note)')}
         try:
             spec = importlib.util.spec_from_file_location('replay_' + prop, os.path.join(VERIF, 'replay', prop + '.py'))
             mod = importlib.util.module_from_spec(spec); spec.loader.exec_module(mod)
